@@ -215,222 +215,453 @@ Qed.
 
 (* ---------- names ---------- *)
 
-Definition name_ok (s : bytes) : bool := forallb (fun c => negb (is_ctl c)) s.
+Definition plain (c : byte) : bool :=
+  negb (beqb c dquote) && negb (beqb c bslash) && negb (beqb c cr) && negb (beqb c lf).
+Definition high (c : byte) : bool := (128 <=? bN c)%N.
 
-Lemma unquote_quote_byte c r :
-  is_ctl c = false ->
-  unquote (quote_byte c ++ r) =
-  match unquote r with Some (v, t) => Some (c :: v, t) | None => None end.
+Definition prepend (l : bytes) (o : option (bytes * bytes)) : option (bytes * bytes) :=
+  match o with Some (v, t) => Some (l ++ v, t) | None => None end.
+
+Lemma prepend_app a b o : prepend (a ++ b) o = prepend a (prepend b o).
+Proof. destruct o as [[v t]|]; cbn; [now rewrite app_assoc|reflexivity]. Qed.
+
+Lemma unquote_plain_cons c r : plain c = true -> unquote (c :: r) = prepend [c] (unquote r).
+Proof.
+  unfold plain. intro H. repeat (apply andb_prop in H as (H & ?)).
+  repeat match goal with Hn : negb _ = true |- _ => apply Bool.negb_true_iff in Hn end.
+  cbn [unquote]. rewrite H, H2, H1, H0. cbn [orb]. destruct (unquote r) as [[v t]|]; reflexivity.
+Qed.
+
+Lemma unquote_plain_app l r : forallb plain l = true -> unquote (l ++ r) = prepend l (unquote r).
+Proof.
+  induction l as [|c l IH]; intro H; cbn [app].
+  - destruct (unquote r) as [[v t]|]; reflexivity.
+  - cbn [forallb] in H. apply andb_prop in H as (H1 & H2).
+    rewrite unquote_plain_cons by exact H1. rewrite (IH H2).
+    destruct (unquote r) as [[v t]|]; reflexivity.
+Qed.
+
+(* a backslash that does not precede a tspecial stays a backslash *)
+Lemma unquote_bslash_literal x rest :
+  is_tspecial x = false -> unquote (bslash :: x :: rest) = prepend [bslash] (unquote (x :: rest)).
+Proof.
+  intro H. remember (x :: rest) as l eqn:El. cbn [unquote].
+  change (beqb bslash dquote) with false. change (beqb bslash bslash) with true. cbv iota.
+  rewrite El at 1. cbv iota. rewrite H. destruct (unquote l) as [[v t]|]; reflexivity.
+Qed.
+
+Lemma unquote_escape_text x tl r :
+  is_tspecial x = false -> forallb plain (x :: tl) = true ->
+  unquote ((bslash :: x :: tl) ++ r) = prepend (bslash :: x :: tl) (unquote r).
+Proof.
+  intros H P. cbn [app]. rewrite unquote_bslash_literal by exact H.
+  change (x :: tl ++ r) with ((x :: tl) ++ r). rewrite unquote_plain_app by exact P.
+  destruct (unquote r) as [[v t]|]; reflexivity.
+Qed.
+
+Lemma lhex_cases n : In (lhex n) lowerhex.
+Proof.
+  unfold lhex. destruct (Nat.lt_ge_cases (N.to_nat n) (length lowerhex)) as [L|L].
+  - now apply nth_In.
+  - rewrite nth_overflow by exact L. cbn. auto.
+Qed.
+
+Lemma lhex_plain n : plain (lhex n) = true /\ valid_hv (lhex n) = true /\ is_tspecial (lhex n) = false.
+Proof.
+  pose proof (lhex_cases n) as H. remember (lhex n) as h eqn:Eh. clear Eh. cbn in H.
+  repeat (destruct H as [<-|H]; [repeat split; reflexivity|]). contradiction.
+Qed.
+
+Lemma hex4_plain r : forallb plain (hex4 r) = true /\ forallb valid_hv (hex4 r) = true.
+Proof.
+  unfold hex4. cbn [forallb].
+  destruct (lhex_plain (r / 4096 mod 16)) as (a1 & b1 & _), (lhex_plain (r / 256 mod 16)) as (a2 & b2 & _),
+           (lhex_plain (r / 16 mod 16)) as (a3 & b3 & _), (lhex_plain (r mod 16)) as (a4 & b4 & _).
+  rewrite a1, a2, a3, a4, b1, b2, b3, b4. split; reflexivity.
+Qed.
+
+Lemma unquote_rune_escape rn r : unquote (rune_escape rn ++ r) = prepend (rune_escape rn) (unquote r).
+Proof.
+  unfold rune_escape. destruct (rn <? 65536)%N.
+  - apply unquote_escape_text; [reflexivity|]. cbn [forallb].
+    destruct (hex4_plain rn) as (H & _). now rewrite H.
+  - apply unquote_escape_text; [reflexivity|]. cbn [forallb]. rewrite forallb_app.
+    destruct (hex4_plain (rn / 65536)) as (H1 & _), (hex4_plain (rn mod 65536)) as (H2 & _).
+    now rewrite H1, H2.
+Qed.
+
+Lemma unquote_byte_escape c r : unquote (byte_escape c ++ r) = prepend (byte_escape c) (unquote r).
+Proof.
+  unfold byte_escape. apply unquote_escape_text; [reflexivity|]. cbn [forallb].
+  destruct (lhex_plain (bN c / 16)) as (a & _), (lhex_plain (bN c mod 16)) as (b & _).
+  now rewrite a, b.
+Qed.
+
+Lemma unquote_quote_ascii c r :
+  (bN c <? 128)%N = true -> unquote (quote_byte c ++ r) = prepend (image_byte c) (unquote r).
 Proof.
   destruct c; intro H; try discriminate H; cbn; destruct (unquote r) as [[? ?]|]; reflexivity.
 Qed.
 
-Lemma unquote_quote s r :
-  name_ok s = true -> unquote (flat_map quote_byte s ++ dquote :: r) = Some (s, r).
+Lemma high_facts c : high c = true -> plain c = true /\ valid_hv c = true.
+Proof. destruct c; intro H; try discriminate H; split; reflexivity. Qed.
+
+Lemma cont_high b : cont_byte b = true -> high b = true.
+Proof. unfold cont_byte, high. intro H. now apply andb_prop in H as (H & _). Qed.
+
+Lemma in_range_high lo hi b : (128 <= lo)%N -> in_range lo hi b = true -> high b = true.
 Proof.
-  induction s as [|c s IH]; intro H.
-  - cbn. reflexivity.
-  - cbn [name_ok forallb] in H. apply andb_prop in H as (H1 & H2).
-    apply Bool.negb_true_iff in H1.
-    cbn [flat_map]. rewrite <- app_assoc, unquote_quote_byte by exact H1.
-    fold (name_ok s) in H2. now rewrite (IH H2).
+  unfold in_range, high. intros L H. apply andb_prop in H as (H & _).
+  apply N.leb_le in H. apply N.leb_le. lia.
 Qed.
 
-Lemma escq_is_quote c : is_ctl c = false -> escq_byte c = quote_byte c.
-Proof. destruct c; intro H; try discriminate H; reflexivity. Qed.
-
-Lemma escape_quotes_quote s : name_ok s = true -> escape_quotes s = flat_map quote_byte s.
+(* the decoder consumes between 1 and 4 bytes, all of them >= 0x80 *)
+Lemma decode_rune_spec s rn w :
+  decode_rune s = Some (rn, w) ->
+  1 <= w /\ w <= 4 /\ w <= length s /\ forallb high (firstn w s) = true.
 Proof.
-  induction s as [|c s IH]; intro H; [reflexivity|].
-  cbn [name_ok forallb] in H. apply andb_prop in H as (H1 & H2). apply Bool.negb_true_iff in H1.
-  unfold escape_quotes in *. cbn [flat_map]. rewrite escq_is_quote by exact H1.
-  f_equal. now apply IH.
+  unfold decode_rune. destruct s as [|b0 rest]; [discriminate|].
+  destruct (bN b0 <? 194)%N eqn:L0; [discriminate|]. apply N.ltb_ge in L0.
+  assert (high b0 = true) as H0 by (unfold high; apply N.leb_le; lia).
+  destruct (bN b0 <=? 223)%N.
+  { destruct rest as [|b1 rest]; [discriminate|].
+    destruct (cont_byte b1) eqn:C1; [|discriminate]. intro E. inversion E; subst.
+    cbn [firstn forallb length]. rewrite H0, (cont_high _ C1). repeat split; lia. }
+  destruct (bN b0 <=? 239)%N.
+  { destruct rest as [|b1 [|b2 rest]]; try discriminate.
+    match goal with |- context [in_range ?lo ?hi b1] => destruct (in_range lo hi b1) eqn:R1 end; [|discriminate].
+    destruct (cont_byte b2) eqn:C2; [|discriminate]. cbn [andb]. intro E. inversion E; subst.
+    cbn [firstn forallb length]. rewrite H0, (cont_high _ C2).
+    assert (high b1 = true) as H1
+      by (eapply in_range_high; [|exact R1]; destruct (bN b0 =? 224)%N; lia).
+    rewrite H1. repeat split; lia. }
+  destruct (bN b0 <=? 244)%N; [|discriminate].
+  destruct rest as [|b1 [|b2 [|b3 rest]]]; try discriminate.
+  match goal with |- context [in_range ?lo ?hi b1] => destruct (in_range lo hi b1) eqn:R1 end; [|discriminate].
+  destruct (cont_byte b2) eqn:C2; [|discriminate]. destruct (cont_byte b3) eqn:C3; [|discriminate].
+  cbn [andb]. intro E. inversion E; subst.
+  cbn [firstn forallb length]. rewrite H0, (cont_high _ C2), (cont_high _ C3).
+  assert (high b1 = true) as H1
+    by (eapply in_range_high; [|exact R1]; destruct (bN b0 =? 240)%N; lia).
+  rewrite H1. repeat split; lia.
 Qed.
 
-(* quoted names never contain CR, LF or any other control byte: the part structure cannot be
-   changed through a file name, whatever bytes it holds *)
+Lemma forallb_high_plain l : forallb high l = true -> forallb plain l = true /\ forallb valid_hv l = true.
+Proof.
+  induction l as [|c l IH]; [split; reflexivity|]. cbn [forallb]. intro H.
+  apply andb_prop in H as (H1 & H2). destruct (high_facts c H1) as (a & b), (IH H2) as (x & y).
+  now rewrite a, b, x, y.
+Qed.
+
 Lemma quote_byte_valid c : forallb valid_hv (quote_byte c) = true.
 Proof. destruct c; reflexivity. Qed.
 
-Lemma go_quote_valid s : forallb valid_hv (go_quote s) = true.
+Lemma rune_escape_valid rn : forallb valid_hv (rune_escape rn) = true.
 Proof.
-  unfold go_quote. cbn [forallb]. rewrite forallb_app. cbn.
-  rewrite Bool.andb_true_r. induction s as [|c s IH]; [reflexivity|].
-  cbn [flat_map]. now rewrite forallb_app, quote_byte_valid, IH.
+  unfold rune_escape. destruct (rn <? 65536)%N; cbn [forallb]; rewrite ?forallb_app.
+  - destruct (hex4_plain rn) as (_ & H). now rewrite H.
+  - destruct (hex4_plain (rn / 65536)) as (_ & H1), (hex4_plain (rn mod 65536)) as (_ & H2). now rewrite H1, H2.
 Qed.
 
-Lemma name_ok_valid s : name_ok s = true -> forallb valid_hv s = true.
+Lemma byte_escape_valid c : forallb valid_hv (byte_escape c) = true.
 Proof.
-  induction s as [|c s IH]; [reflexivity|]. cbn [name_ok forallb]. intro H.
-  apply andb_prop in H as (H1 & H2). rewrite (IH H2). unfold valid_hv. now rewrite H1.
+  unfold byte_escape. cbn [forallb].
+  destruct (lhex_plain (bN c / 16)) as (_ & a & _), (lhex_plain (bN c mod 16)) as (_ & b & _).
+  now rewrite a, b.
 Qed.
 
-(* ---------- Content-Disposition ---------- *)
+Lemma image_byte_len c :
+  1 <= length (image_byte c) /\ (is_ctl c = true -> 2 <= length (image_byte c)) /\
+  (is_ctl c = false -> image_byte c = [c]).
+Proof. destruct c; cbn; repeat split; try lia; try discriminate; reflexivity. Qed.
 
-Lemma parse_param_step key v rest fuel :
-  mem_byte "="%byte key = false -> name_ok v = true ->
-  parse_params (S fuel) (bs "; " ++ key ++ bs "=" ++ go_quote v ++ rest) =
-  match parse_params fuel rest with Some kv => Some ((key, v) :: kv) | None => None end.
-Proof.
-  intros Hk Hv. cbn [parse_params].
-  assert (bs "; " ++ key ++ bs "=" ++ go_quote v ++ rest =
-          ";"%byte :: " "%byte :: key ++ ("="%byte :: [dquote]) ++ (flat_map quote_byte v ++ dquote :: rest)) as E.
-  { unfold go_quote. cbn. rewrite <- !app_assoc. reflexivity. }
-  rewrite E. cbv beta iota. change (has_prefix (bs "; ") (";"%byte :: " "%byte :: ?x)) with true.
-  cbn [skipn]. change (bs "=""") with ("="%byte :: [dquote]).
-  rewrite find_delim_simple by exact Hk.
-  now rewrite unquote_quote.
-Qed.
+Lemma rune_escape_len rn : 6 <= length (rune_escape rn).
+Proof. unfold rune_escape. destruct (rn <? 65536)%N; cbn [length hex4 app]; lia. Qed.
 
-Lemma field_cd_parse name :
-  name_ok name = true -> parse_cd (field_cd name) = Some [(bs "name", name)].
-Proof.
-  intro H. unfold parse_cd, field_cd.
-  change (bs "form-data; name=""") with (bs "form-data" ++ bs "; " ++ bs "name" ++ bs "=" ++ [dquote]).
-  rewrite <- !app_assoc. change (has_prefix (bs "form-data") (bs "form-data" ++ ?x)) with true.
-  cbv iota. change (skipn 9 (bs "form-data" ++ ?x)) with x.
-  remember (length (bs "form-data" ++ bs "; " ++ bs "name" ++ bs "=" ++ [dquote] ++
-                    escape_quotes name ++ [dquote])) as n eqn:En.
-  destruct n as [|m]; [rewrite app_length in En; cbn in En; discriminate En|].
-  rewrite escape_quotes_quote by exact H.
-  replace ([dquote] ++ flat_map quote_byte name ++ [dquote]) with (go_quote name ++ [])
-    by (unfold go_quote; cbn; now rewrite app_nil_r).
-  rewrite parse_param_step by (reflexivity || exact H). reflexivity.
-Qed.
+Section WithOracles.
+  Variable is_print : N -> bool.
+  Variable sniff : bytes -> bytes.
 
-Lemma quote_bytes_valid s : forallb valid_hv (flat_map quote_byte s) = true.
-Proof.
-  induction s as [|c s IH]; [reflexivity|].
-  cbn [flat_map]. now rewrite forallb_app, quote_byte_valid, IH.
-Qed.
+  (* what the server's quoted-string reader makes of a %q-quoted name: for EVERY byte string *)
+  Lemma unquote_quote_body fuel : forall s r,
+    length s <= fuel ->
+    unquote (quote_body is_print fuel s ++ dquote :: r) = Some (name_image is_print fuel s, r).
+  Proof.
+    induction fuel as [|f IH]; intros s r L.
+    - destruct s; [|cbn in L; lia]. reflexivity.
+    - destruct s as [|c s']; [reflexivity|].
+      cbn [quote_body name_image]. cbn [length] in L.
+      destruct (bN c <? 128)%N eqn:A.
+      + rewrite <- app_assoc, unquote_quote_ascii by exact A. rewrite IH by lia. reflexivity.
+      + destruct (decode_rune (c :: s')) as [[rn w]|] eqn:D.
+        * destruct (decode_rune_spec _ _ _ D) as (W1 & _ & W2 & H).
+          assert (length (skipn w (c :: s')) <= f) as L' by (rewrite skipn_length; cbn [length] in *; lia).
+          rewrite <- app_assoc. destruct (is_print rn).
+          -- rewrite unquote_plain_app by (apply forallb_high_plain, H). rewrite IH by exact L'. reflexivity.
+          -- rewrite unquote_rune_escape, IH by exact L'. reflexivity.
+        * rewrite <- app_assoc, unquote_byte_escape, IH by lia. reflexivity.
+  Qed.
 
-Definition params_ok (kv : list (bytes * bytes)) : bool :=
-  forallb (fun p => negb (mem_byte "="%byte (fst p)) && name_ok (snd p)) kv.
+  (* ... and it never contains a byte a header value may not carry *)
+  Lemma quote_body_valid fuel : forall s, forallb valid_hv (quote_body is_print fuel s) = true.
+  Proof.
+    induction fuel as [|f IH]; intro s; [reflexivity|].
+    destruct s as [|c s']; [reflexivity|]. cbn [quote_body].
+    destruct (bN c <? 128)%N.
+    - now rewrite forallb_app, quote_byte_valid, IH.
+    - destruct (decode_rune (c :: s')) as [[rn w]|] eqn:D.
+      + destruct (decode_rune_spec _ _ _ D) as (_ & _ & _ & H). rewrite forallb_app, IH.
+        destruct (is_print rn); [destruct (forallb_high_plain _ H) as (_ & V); now rewrite V|].
+        now rewrite rune_escape_valid.
+      + now rewrite forallb_app, byte_escape_valid, IH.
+  Qed.
 
-Lemma parse_params_cd kv : forall fuel,
-  length kv < fuel -> params_ok kv = true -> parse_params fuel (cd_params kv) = Some kv.
-Proof.
-  induction kv as [|[k v] kv IH]; intros fuel Hf Hok.
-  - destruct fuel; [lia|]. reflexivity.
-  - destruct fuel; [lia|]. cbn [params_ok forallb fst snd] in Hok.
-    apply andb_prop in Hok as (H1 & Hok). apply andb_prop in H1 as (Hk & Hv).
-    apply Bool.negb_true_iff in Hk.
-    unfold cd_params. cbn [flat_map fst snd]. rewrite <- !app_assoc.
-    rewrite parse_param_step by assumption.
-    fold (cd_params kv). rewrite IH; [reflexivity|cbn [length] in Hf; lia|exact Hok].
-Qed.
+  Lemma go_quote_valid s : forallb valid_hv (go_quote is_print s) = true.
+  Proof.
+    unfold go_quote. cbn [forallb]. rewrite forallb_app, quote_body_valid. reflexivity.
+  Qed.
 
-Lemma cd_params_length kv : length kv <= length (cd_params kv).
-Proof.
-  induction kv as [|p kv IH]; [cbn; lia|].
-  unfold cd_params in *. cbn [flat_map]. rewrite app_length.
-  assert (1 <= length (bs "; " ++ fst p ++ bs "=" ++ go_quote (snd p)))
-    by (rewrite app_length; cbn; lia).
-  change (length (p :: kv)) with (S (length kv)).
-  exact (Nat.add_le_mono _ _ _ _ H IH).
-Qed.
+  (* the recovered name is the supplied one exactly when the guard holds *)
+  Lemma image_guard fuel : forall s,
+    length s <= fuel ->
+    length s <= length (name_image is_print fuel s) /\
+    (name_guard is_print fuel s = true -> name_image is_print fuel s = s) /\
+    (name_guard is_print fuel s = false -> length s < length (name_image is_print fuel s)).
+  Proof.
+    induction fuel as [|f IH]; intros s L.
+    - destruct s; [|cbn in L; lia]. cbn. repeat split; try lia; discriminate.
+    - destruct s as [|c s']; [cbn; repeat split; try lia; discriminate|].
+      cbn [name_image name_guard]. cbn [length] in L.
+      destruct (bN c <? 128)%N.
+      + destruct (IH s' ltac:(lia)) as (I1 & I2 & I3).
+        destruct (image_byte_len c) as (B1 & B2 & B3). rewrite app_length. cbn [length].
+        destruct (is_ctl c) eqn:C; cbn [negb andb].
+        * specialize (B2 eq_refl). repeat split; try lia; discriminate.
+        * rewrite (B3 eq_refl). cbn [length app]. repeat split; [lia| |].
+          -- intro G. now rewrite (I2 G).
+          -- intro G. specialize (I3 G). lia.
+      + destruct (decode_rune (c :: s')) as [[rn w]|] eqn:D.
+        * destruct (decode_rune_spec _ _ _ D) as (W1 & W4 & W2 & _).
+          assert (length (skipn w (c :: s')) <= f) as L' by (rewrite skipn_length; cbn [length] in *; lia).
+          destruct (IH _ L') as (I1 & I2 & I3). rewrite skipn_length in *. rewrite app_length.
+          cbn [length] in *. destruct (is_print rn); cbn [andb].
+          -- rewrite firstn_length_le by (cbn [length]; lia). repeat split; [lia| |].
+             ++ intro G. rewrite (I2 G). apply firstn_skipn.
+             ++ intro G. specialize (I3 G). lia.
+          -- pose proof (rune_escape_len rn). repeat split; try lia; discriminate.
+        * destruct (IH s' ltac:(lia)) as (I1 & _ & _). rewrite app_length.
+          unfold byte_escape. cbn [length]. repeat split; try lia; discriminate.
+  Qed.
 
-Lemma parse_cd_params kv :
-  params_ok kv = true -> parse_cd (bs "form-data" ++ cd_params kv) = Some kv.
-Proof.
-  intro H. unfold parse_cd. rewrite has_prefix_refl_app.
-  change (skipn 9 (bs "form-data" ++ ?x)) with x.
-  apply parse_params_cd; [|exact H].
-  rewrite app_length. pose proof (cd_params_length kv). lia.
-Qed.
+  Theorem file_name_recovered s r :
+    unquote (quote_body is_print (length s) s ++ dquote :: r) = Some (name_image is_print (length s) s, r) /\
+    (name_image is_print (length s) s = s <-> quotable is_print s = true).
+  Proof.
+    split; [now apply unquote_quote_body|]. unfold quotable.
+    destruct (image_guard (length s) s (Nat.le_refl _)) as (_ & G1 & G2). split.
+    - intro E. destruct (name_guard is_print (length s) s) eqn:G; [reflexivity|].
+      specialize (G2 eq_refl). rewrite E in G2. lia.
+    - exact G1.
+  Qed.
 
-(* ---------- what a handler sees ---------- *)
+  Lemma unquote_quotable s r :
+    quotable is_print s = true ->
+    unquote (quote_body is_print (length s) s ++ dquote :: r) = Some (s, r).
+  Proof.
+    intro Q. destruct (file_name_recovered s r) as (U & I). rewrite U. f_equal. f_equal. now apply I.
+  Qed.
 
-Definition nonempty (s : bytes) : bool := match s with [] => false | _ => true end.
+  (* field names go through mime/multipart's escapeQuotes *)
+  Lemma unquote_escq_byte c r :
+    (negb (is_ctl c) || beqb c x09) = true -> unquote (escq_byte c ++ r) = prepend [c] (unquote r).
+  Proof. destruct c; intro H; try discriminate H; cbn; destruct (unquote r) as [[? ?]|]; reflexivity. Qed.
 
-Definition field_ok (b : bytes) (kv : bytes * bytes) : bool :=
-  name_ok (fst kv) && negb (occurs (delimiter b) (snd kv)).
+  Lemma escq_byte_valid c :
+    (negb (is_ctl c) || beqb c x09) = true -> forallb valid_hv (escq_byte c) = true.
+  Proof. destruct c; intro H; try discriminate H; reflexivity. Qed.
 
-(* extra Content-Disposition parameters: keys are header-safe and contain no '=', values carry
-   no control bytes (the handler still finds name and filename first) *)
-Definition extra_ok (kv : list (bytes * bytes)) : bool :=
-  params_ok kv && forallb (fun p => forallb valid_hv (fst p)) kv.
+  Lemma unquote_escape_quotes s r :
+    field_name_ok s = true -> unquote (escape_quotes s ++ dquote :: r) = Some (s, r).
+  Proof.
+    induction s as [|c s IH]; intro H.
+    - reflexivity.
+    - cbn [field_name_ok forallb] in H. apply andb_prop in H as (H1 & H2).
+      unfold escape_quotes in *. cbn [flat_map]. rewrite <- app_assoc, unquote_escq_byte by exact H1.
+      fold (field_name_ok s) in H2. now rewrite (IH H2).
+  Qed.
 
-Definition file_ok (sniff : bytes -> bytes) (b : bytes) (f : file_upload) : bool :=
-  nonempty (f_param f) && nonempty (f_name f) &&
-  extra_ok (f_extra f) &&
-  name_ok (f_param f) && name_ok (f_name f) &&
-  forallb valid_hv (effective_ctype sniff f) &&
-  negb (occurs (delimiter b) (f_content f)).
+  Lemma escape_quotes_valid s : field_name_ok s = true -> forallb valid_hv (escape_quotes s) = true.
+  Proof.
+    induction s as [|c s IH]; intro H; [reflexivity|].
+    cbn [field_name_ok forallb] in H. apply andb_prop in H as (H1 & H2).
+    unfold escape_quotes in *. cbn [flat_map]. rewrite forallb_app, escq_byte_valid by exact H1.
+    now apply IH.
+  Qed.
 
-Lemma view_field kv : name_ok (fst kv) = true -> view_part (field_part kv) = Some (field_view kv).
-Proof.
-  intro H. unfold view_part, field_part, field_headers. cbn [p_headers p_body assoc].
-  change (bytes_eqb cd_key cd_key) with true. cbv iota.
-  rewrite field_cd_parse by exact H. reflexivity.
-Qed.
+  (* ---------- Content-Disposition ---------- *)
 
-Lemma file_cd_shape f :
-  nonempty (f_param f) = true -> nonempty (f_name f) = true ->
-  file_cd f = bs "form-data" ++
-              cd_params ((bs "name", f_param f) :: (bs "filename", f_name f) :: f_extra f).
-Proof.
-  intros H1 H2. unfold file_cd.
-  destruct (f_param f); [discriminate|]. destruct (f_name f); [discriminate|]. reflexivity.
-Qed.
+  Lemma parse_param_step key qb v rest fuel :
+    mem_byte "="%byte key = false ->
+    unquote (qb ++ dquote :: rest) = Some (v, rest) ->
+    parse_params (S fuel) (bs "; " ++ key ++ bs "=" ++ (dquote :: qb ++ [dquote]) ++ rest) =
+    match parse_params fuel rest with Some kv => Some ((key, v) :: kv) | None => None end.
+  Proof.
+    intros Hk Hv. cbn [parse_params].
+    assert (bs "; " ++ key ++ bs "=" ++ (dquote :: qb ++ [dquote]) ++ rest =
+            ";"%byte :: " "%byte :: key ++ ("="%byte :: [dquote]) ++ (qb ++ dquote :: rest)) as E.
+    { cbn. rewrite <- !app_assoc. reflexivity. }
+    rewrite E. cbv beta iota. change (has_prefix (bs "; ") (";"%byte :: " "%byte :: ?x)) with true.
+    cbn [skipn]. change (bs "=""") with ("="%byte :: [dquote]).
+    rewrite find_delim_simple by exact Hk.
+    now rewrite Hv.
+  Qed.
 
-Lemma view_file sniff f :
-  nonempty (f_param f) = true -> nonempty (f_name f) = true -> extra_ok (f_extra f) = true ->
-  name_ok (f_param f) = true -> name_ok (f_name f) = true ->
-  view_part (file_part sniff f) = Some (file_view sniff f).
-Proof.
-  intros H1 H2 H3 H4 H5. unfold view_part, file_part, file_headers. cbn [p_headers p_body assoc].
-  change (bytes_eqb cd_key cd_key) with true. cbv iota.
-  rewrite file_cd_shape by assumption.
-  unfold extra_ok in H3. apply andb_prop in H3 as (H3 & H3').
-  rewrite parse_cd_params
-    by (unfold params_ok in *; cbn [forallb fst snd]; rewrite H4, H5, H3; reflexivity).
-  cbn [assoc]. change (bytes_eqb (bs "name") (bs "name")) with true.
-  change (bytes_eqb (bs "name") (bs "filename")) with false.
-  change (bytes_eqb (bs "filename") (bs "filename")) with true. cbv iota.
-  unfold file_view. f_equal. f_equal.
-  destruct (is_blank (effective_ctype sniff f)); cbn [assoc].
-  - reflexivity.
-  - change (bytes_eqb ct_key ct_key) with true. reflexivity.
-Qed.
+  Lemma field_cd_parse name :
+    field_name_ok name = true -> parse_cd (field_cd name) = Some [(bs "name", name)].
+  Proof.
+    intro H. unfold parse_cd, field_cd.
+    change (bs "form-data; name=""") with (bs "form-data" ++ bs "; " ++ bs "name" ++ bs "=" ++ [dquote]).
+    rewrite <- !app_assoc. change (has_prefix (bs "form-data") (bs "form-data" ++ ?x)) with true.
+    cbv iota. change (skipn 9 (bs "form-data" ++ ?x)) with x.
+    remember (length (bs "form-data" ++ bs "; " ++ bs "name" ++ bs "=" ++ [dquote] ++
+                      escape_quotes name ++ [dquote])) as n eqn:En.
+    destruct n as [|m]; [rewrite app_length in En; cbn in En; discriminate En|].
+    replace ([dquote] ++ escape_quotes name ++ [dquote]) with ((dquote :: escape_quotes name ++ [dquote]) ++ [])
+      by (cbn; now rewrite app_nil_r).
+    rewrite (parse_param_step (bs "name") (escape_quotes name) name [] (S m))
+      by (reflexivity || now apply unquote_escape_quotes). reflexivity.
+  Qed.
 
-Lemma field_part_ok b kv : field_ok b kv = true -> part_ok b (field_part kv) = true.
-Proof.
-  unfold field_ok, part_ok, field_part, field_headers. intro H. apply andb_prop in H as (H1 & H2).
-  cbn [p_headers p_body forallb]. rewrite H2, !Bool.andb_true_r.
-  unfold header_ok. cbn [fst snd]. change (mem_byte ":"%byte cd_key) with false. cbn [negb andb].
-  unfold field_cd. rewrite !forallb_app, escape_quotes_quote by exact H1.
-  now rewrite quote_bytes_valid.
-Qed.
+  Definition params_ok (kv : list (bytes * bytes)) : bool :=
+    forallb (fun p => negb (mem_byte "="%byte (fst p)) && quotable is_print (snd p)) kv.
 
-Lemma cd_params_valid kv :
-  forallb (fun p => forallb valid_hv (fst p)) kv = true -> forallb valid_hv (cd_params kv) = true.
-Proof.
-  induction kv as [|p kv IH]; [reflexivity|]. cbn [forallb]. intro H. apply andb_prop in H as (H1 & H2).
-  unfold cd_params in *. cbn [flat_map]. rewrite !forallb_app, H1, (IH H2), go_quote_valid.
-  reflexivity.
-Qed.
+  Lemma parse_params_cd kv : forall fuel,
+    length kv < fuel -> params_ok kv = true -> parse_params fuel (cd_params is_print kv) = Some kv.
+  Proof.
+    induction kv as [|[k v] kv IH]; intros fuel Hf Hok.
+    - destruct fuel; [lia|]. reflexivity.
+    - destruct fuel; [lia|]. cbn [params_ok forallb fst snd] in Hok.
+      apply andb_prop in Hok as (H1 & Hok). apply andb_prop in H1 as (Hk & Hv).
+      apply Bool.negb_true_iff in Hk.
+      unfold cd_params. cbn [flat_map fst snd]. rewrite <- !app_assoc. unfold go_quote at 1.
+      rewrite (parse_param_step k (quote_body is_print (length v) v) v) by (exact Hk || now apply unquote_quotable).
+      fold (cd_params is_print kv). rewrite IH; [reflexivity|cbn [length] in Hf; lia|exact Hok].
+  Qed.
 
-Lemma file_part_ok sniff b f : file_ok sniff b f = true -> part_ok b (file_part sniff f) = true.
-Proof.
-  unfold file_ok. intro H.
-  repeat (apply andb_prop in H as (H & ?)).
-  match goal with He : extra_ok _ = true |- _ => unfold extra_ok in He; apply andb_prop in He as (Hx1 & Hx2) end.
-  unfold part_ok, file_part, file_headers. cbn [p_headers p_body forallb].
-  match goal with Ho : negb (occurs _ _) = true |- _ => rewrite Ho end.
-  rewrite Bool.andb_true_r.
-  assert (header_ok (cd_key, file_cd f) = true) as Hcd.
-  { unfold header_ok. cbn [fst snd]. change (mem_byte ":"%byte cd_key) with false. cbn [negb andb].
+  Lemma cd_params_length kv : length kv <= length (cd_params is_print kv).
+  Proof.
+    induction kv as [|p kv IH]; [cbn; lia|].
+    unfold cd_params in *. cbn [flat_map]. rewrite app_length.
+    assert (1 <= length (bs "; " ++ fst p ++ bs "=" ++ go_quote is_print (snd p)))
+      by (rewrite app_length; cbn; lia).
+    change (length (p :: kv)) with (S (length kv)).
+    exact (Nat.add_le_mono _ _ _ _ H IH).
+  Qed.
+
+  Lemma parse_cd_params kv :
+    params_ok kv = true -> parse_cd (bs "form-data" ++ cd_params is_print kv) = Some kv.
+  Proof.
+    intro H. unfold parse_cd. rewrite has_prefix_refl_app.
+    change (skipn 9 (bs "form-data" ++ ?x)) with x.
+    apply parse_params_cd; [|exact H].
+    rewrite app_length. pose proof (cd_params_length kv). lia.
+  Qed.
+
+  (* ---------- what a handler sees ---------- *)
+
+  Definition nonempty (s : bytes) : bool := match s with [] => false | _ => true end.
+
+  (* field names: exactly the names writeMultipartField accepts *)
+  Definition field_ok (b : bytes) (kv : bytes * bytes) : bool :=
+    field_name_ok (fst kv) && negb (occurs (delimiter b) (snd kv)).
+
+  (* extra Content-Disposition parameters: keys are header-safe and contain no '=', values are
+     quotable (the handler still finds name and filename first) *)
+  Definition extra_ok (kv : list (bytes * bytes)) : bool :=
+    params_ok kv && forallb (fun p => forallb valid_hv (fst p)) kv.
+
+  Definition file_ok (b : bytes) (f : file_upload) : bool :=
+    nonempty (f_param f) && nonempty (f_name f) &&
+    extra_ok (f_extra f) &&
+    quotable is_print (f_param f) && quotable is_print (f_name f) &&
+    forallb valid_hv (effective_ctype sniff f) &&
+    negb (occurs (delimiter b) (f_content f)).
+
+  Lemma view_field kv :
+    field_name_ok (fst kv) = true -> view_part (field_part kv) = Some (field_view kv).
+  Proof.
+    intro H. unfold view_part, field_part, field_headers. cbn [p_headers p_body assoc].
+    change (bytes_eqb cd_key cd_key) with true. cbv iota.
+    rewrite field_cd_parse by exact H. reflexivity.
+  Qed.
+
+  Lemma file_cd_shape f :
+    nonempty (f_param f) = true -> nonempty (f_name f) = true ->
+    file_cd is_print f = bs "form-data" ++
+                cd_params is_print ((bs "name", f_param f) :: (bs "filename", f_name f) :: f_extra f).
+  Proof.
+    intros H1 H2. unfold file_cd.
+    destruct (f_param f); [discriminate|]. destruct (f_name f); [discriminate|]. reflexivity.
+  Qed.
+
+  Lemma view_file f :
+    nonempty (f_param f) = true -> nonempty (f_name f) = true -> extra_ok (f_extra f) = true ->
+    quotable is_print (f_param f) = true -> quotable is_print (f_name f) = true ->
+    view_part (file_part is_print sniff f) = Some (file_view sniff f).
+  Proof.
+    intros H1 H2 H3 H4 H5. unfold view_part, file_part, file_headers. cbn [p_headers p_body assoc].
+    change (bytes_eqb cd_key cd_key) with true. cbv iota.
     rewrite file_cd_shape by assumption.
-    rewrite !forallb_app, cd_params_valid by (cbn [forallb fst]; rewrite Hx2; reflexivity).
-    reflexivity. }
-  rewrite Hcd. destruct (is_blank (effective_ctype sniff f)); [reflexivity|].
-  cbn [forallb]. rewrite Bool.andb_true_r. unfold header_ok. cbn [fst snd].
-  change (mem_byte ":"%byte ct_key) with false. cbn [negb andb].
-  rewrite !forallb_app.
-  match goal with Hv : forallb valid_hv (effective_ctype _ _) = true |- _ => rewrite Hv end.
-  reflexivity.
-Qed.
+    unfold extra_ok in H3. apply andb_prop in H3 as (H3 & H3').
+    rewrite parse_cd_params
+      by (unfold params_ok in *; cbn [forallb fst snd]; rewrite H4, H5, H3; reflexivity).
+    cbn [assoc]. change (bytes_eqb (bs "name") (bs "name")) with true.
+    change (bytes_eqb (bs "name") (bs "filename")) with false.
+    change (bytes_eqb (bs "filename") (bs "filename")) with true. cbv iota.
+    unfold file_view. f_equal. f_equal.
+    destruct (is_blank (effective_ctype sniff f)); cbn [assoc].
+    - reflexivity.
+    - change (bytes_eqb ct_key ct_key) with true. reflexivity.
+  Qed.
+
+  Lemma field_part_ok b kv : field_ok b kv = true -> part_ok b (field_part kv) = true.
+  Proof.
+    unfold field_ok, part_ok, field_part, field_headers. intro H. apply andb_prop in H as (H1 & H2).
+    cbn [p_headers p_body forallb]. rewrite H2, !Bool.andb_true_r.
+    unfold header_ok. cbn [fst snd]. change (mem_byte ":"%byte cd_key) with false. cbn [negb andb].
+    unfold field_cd. rewrite !forallb_app, escape_quotes_valid by exact H1. reflexivity.
+  Qed.
+
+  Lemma cd_params_valid kv :
+    forallb (fun p => forallb valid_hv (fst p)) kv = true ->
+    forallb valid_hv (cd_params is_print kv) = true.
+  Proof.
+    induction kv as [|p kv IH]; [reflexivity|]. cbn [forallb]. intro H. apply andb_prop in H as (H1 & H2).
+    unfold cd_params in *. cbn [flat_map]. rewrite !forallb_app, H1, (IH H2), go_quote_valid.
+    reflexivity.
+  Qed.
+
+  Lemma file_part_ok b f : file_ok b f = true -> part_ok b (file_part is_print sniff f) = true.
+  Proof.
+    unfold file_ok. intro H.
+    repeat (apply andb_prop in H as (H & ?)).
+    match goal with He : extra_ok _ = true |- _ => unfold extra_ok in He; apply andb_prop in He as (Hx1 & Hx2) end.
+    unfold part_ok, file_part, file_headers. cbn [p_headers p_body forallb].
+    match goal with Ho : negb (occurs _ _) = true |- _ => rewrite Ho end.
+    rewrite Bool.andb_true_r.
+    assert (header_ok (cd_key, file_cd is_print f) = true) as Hcd.
+    { unfold header_ok. cbn [fst snd]. change (mem_byte ":"%byte cd_key) with false. cbn [negb andb].
+      rewrite file_cd_shape by assumption.
+      rewrite !forallb_app, cd_params_valid by (cbn [forallb fst]; rewrite Hx2; reflexivity).
+      reflexivity. }
+    rewrite Hcd. destruct (is_blank (effective_ctype sniff f)); [reflexivity|].
+    cbn [forallb]. rewrite Bool.andb_true_r. unfold header_ok. cbn [fst snd].
+    change (mem_byte ":"%byte ct_key) with false. cbn [negb andb].
+    rewrite !forallb_app.
+    match goal with Hv : forallb valid_hv (effective_ctype _ _) = true |- _ => rewrite Hv end.
+    reflexivity.
+  Qed.
+End WithOracles.
 
 Lemma map_opt_app {A B} (f : A -> option B) l1 l2 r1 r2 :
   map_opt f l1 = Some r1 -> map_opt f l2 = Some r2 -> map_opt f (l1 ++ l2) = Some (r1 ++ r2).
@@ -459,11 +690,13 @@ Qed.
 
 (* the multipart body is read back as exactly the fields, then the files in order, with the
    names, file names, content types and bytes supplied *)
-Theorem multipart_roundtrip sniff b fields files :
+(* the multipart body is read back as exactly the fields, then the files in order, with the
+   names, file names, content types and bytes supplied *)
+Theorem multipart_roundtrip is_print sniff b fields files :
   boundary_chars b = true ->
   forallb (field_ok b) fields = true ->
-  forallb (file_ok sniff b) files = true ->
-  parse_form_parts b (multipart_body sniff b fields files) =
+  forallb (file_ok is_print sniff b) files = true ->
+  parse_form_parts b (multipart_body is_print sniff b fields files) =
   Some (map field_view fields ++ map (file_view sniff) files).
 Proof.
   intros Hb Hf Hg. unfold parse_form_parts, multipart_body.
@@ -471,12 +704,12 @@ Proof.
   - apply map_opt_app.
     + apply map_opt_map with (P := field_ok b); [|exact Hf].
       intros kv H. apply view_field. unfold field_ok in H. now apply andb_prop in H as (H & _).
-    + apply map_opt_map with (P := file_ok sniff b); [|exact Hg].
+    + apply map_opt_map with (P := file_ok is_print sniff b); [|exact Hg].
       intros f H. unfold file_ok in H. repeat (apply andb_prop in H as (H & ?)).
       now apply view_file.
   - rewrite forallb_app. apply andb_true_intro. split.
     + apply forallb_map_impl with (P := field_ok b); [apply field_part_ok|exact Hf].
-    + apply forallb_map_impl with (P := file_ok sniff b); [apply file_part_ok|exact Hg].
+    + apply forallb_map_impl with (P := file_ok is_print sniff b); [apply file_part_ok|exact Hg].
 Qed.
 
 (* the boundary named in the request's Content-Type is the one used in the body *)
